@@ -70,10 +70,14 @@ impl SourceSpan {
         }
     }
     pub fn join2(start: &dyn Located, end: &dyn Located) -> Self {
+        // Get the span of the start once. For a nested item (such as a
+        // structured variable) getting the span is itself a join, so getting
+        // it twice doubles the work at each level of nesting.
+        let start = start.span();
         Self {
-            start: start.span().start,
+            start: start.start,
             end: end.span().end,
-            file_id: start.span().file_id.clone(),
+            file_id: start.file_id,
         }
     }
     pub fn range(start: usize, end: usize) -> Self {
